@@ -806,12 +806,29 @@ def check_key_packet_rebuilds(rep, prog, rid):
                     ctor = True
                 elif self0 is not None and fn.cls.name in fam and isinstance(n.func, ast.Call) and dotted(n.func.func) == 'type':
                     ctor = True
+        weak = False
         if not ctor:
+            # a family class used as a value (k = PubSubKeyV4 if .. else PubKeyV4; k()): any mention that is not the type
+            # argument of isinstance / issubclass makes the function a candidate; the stores decide whether it is a site
+            typeargs = set()
+            for n in ast.walk(fn.node):
+                if isinstance(n, ast.Call) and dotted(n.func) in ('isinstance', 'issubclass') and len(n.args) == 2:
+                    typeargs.update(id(x) for x in ast.walk(n.args[1]))
+            weak = any(isinstance(n, ast.Name) and isinstance(n.ctx, ast.Load) and n.id in fam and id(n) not in typeargs and
+                       getattr(prog.lookup(fn.module, n.id), 'name', None) in fam for n in ast.walk(fn.node))
+        if not (ctor or weak):
             continue
-        outs = Interp(prog, Scenario(inline=noinline, join_unknown=True)).run(fn)
+        try:
+            outs = Interp(prog, Scenario(inline=noinline, join_unknown=True)).run(fn)
+        except AnalysisError:
+            if weak:
+                continue                          # mentions a key class, constructs none that the interpreter can follow
+            raise
         for s in outs:
             if s.raised:
                 continue
+            if weak and not any(all(a in fam for a in join_alternatives(c[0])) for c in s.calls):
+                continue                          # no key packet is constructed on this path
             # objects that receive fingerprint fields on this path: base text -> {field: [(value text, stored sub-path)]}
             objs = {}
             for p, v, l, _ in s.stores:
